@@ -20,20 +20,22 @@ fn curated() -> Vec<&'static str> {
         "$[?!@.a]", "$[?!(@.a == 1)]", "$[?@.a == 'x']", "$[?@.a < 2 || @.b >= 1]", "$[?length(@.a) == 1]", "$[?count(@.*) > 1]", "$[?match(@.a, 'x.*')]", "$[?search(@.a, 'x') && !match(@.b, 'y')]", "$[?value(@..a) == 1]",
         "$[?@[?@.a]]", "$[?@.a[?@ > 1]]", "$..[?@.a]", "$[?@ == $.k]", "$[?$.a[0] == @.b]", "$[?@.a == @.b]", "$.a[?@ > 1, ?@ < 3]", "$[?@.a == true || @.a == null]", "$[?@['x y'] == 1]", "$..['x y']", "$['x y'].a", "$[?@.a.b.c]",
         "$[?@.a[0].b == 1]", "$['xy']", "$..['xy']", "$[?@['xy'] == 2]", "$[?@.a == 'a b']", "$[?@.a == 'ab']", "$[?search(@.a, 'a b')]", "$[?search(@.a, 'ab')]", "$.a[-1]", "$.a[-2:]", "$.a[:1]", "$.a[1:]", "$.a[::-1]", "$.a[0:2:1]", "$[*].a", "$[*][*]", "$..[0]", "$..[*]", "$.a..b", "$[?@.b == 1.5]", "$[?@.a == 1 && (@.b == 2 || @.c == 3)]",
+        // names that are themselves wrapped in quotes and contain a solidus / backslash
+        "$[\"'a/b'\"]", "$..[\"'a/b'\"]", "$[?@[\"'a/b'\"] == 1]", "$['a/b']", "$..['a/b']", "$['\"k\\\\1\"']", "$..['\"k\\\\1\"']", "$[?@['\"k\\\\1\"'] == 3]", "$['k\\\\1']", "$[\"'q'\"]", "$['q']", "$[\"'a/b'\", 'a/b']",
     ]
 }
 
 fn docs(rng: &mut Rng, n: usize) -> Vec<J> {
     let o = |v: Vec<(&str, J)>| J::Obj(v.into_iter().map(|(k, v)| (k.to_string(), v)).collect());
     let mut d = vec![
-        o(vec![("a", J::Arr(vec![J::int(1), J::int(2), J::int(3), o(vec![("b", J::int(1))])])), ("b", o(vec![("a", J::int(1)), ("b", J::int(1)), ("c", J::int(3))])), ("k", J::int(1)), ("x y", o(vec![("a", J::int(1))])), ("xy", o(vec![("a", J::int(2))]))]),
+        o(vec![("a", J::Arr(vec![J::int(1), J::int(2), J::int(3), o(vec![("b", J::int(1))])])), ("b", o(vec![("a", J::int(1)), ("b", J::int(1)), ("c", J::int(3))])), ("k", J::int(1)), ("x y", o(vec![("a", J::int(1))])), ("xy", o(vec![("a", J::int(2))])), ("'a/b'", J::int(1)), ("a/b", J::int(2)), ("\"k\\1\"", J::int(3)), ("k\\1", J::int(4)), ("'q'", J::int(5)), ("q", J::int(6)), ("n", o(vec![("'a/b'", J::int(7)), ("a/b", J::int(8)), ("\"k\\1\"", J::int(9))]))]),
         J::Arr(vec![o(vec![("a", J::str("x")), ("b", J::int(1))]), o(vec![("a", J::str("xy")), ("b", J::float(1.5)), ("c", J::Null)]), o(vec![("a", J::Bool(true))]), o(vec![("a", o(vec![("b", o(vec![("c", J::int(1))]))]))]), o(vec![("x y", J::int(1)), ("xy", J::int(2))]), o(vec![("a", J::str("a b"))]), o(vec![("a", J::str("ab"))]), o(vec![("xy", J::int(1))]), J::Arr(vec![o(vec![("a", J::int(1))])])]),
         o(vec![("a", o(vec![("b", J::Arr(vec![J::int(0), J::int(2)])), ("a", o(vec![("b", J::int(2))]))])), ("b", J::Arr(vec![o(vec![("a", J::Arr(vec![J::int(1), J::int(5)]))])]))]),
     ];
     d.extend(gen::boundary_docs().into_iter().filter(|x| x.node_count() < 700).take(24));
     let mut cfg = gen::DocCfg::default();
     cfg.keys.push("xy".into());
-    for k in ["line\u{85}next", "\u{80}", "a\u{7f}\u{e9}", "\u{9f}b", "\u{feff}a", "a\u{ffff}", "\u{a0}", "\u{2028}x", "\u{e9}", "\u{10d}aj", "vi\u{10d}", "\u{420}\u{43e}\u{441}\u{441}\u{438}\u{44f}", "\u{4e0a}", "\u{4e09}x", "x\u{120}", "\u{12e}", "a\u{15b}", "\u{127}b", "\u{124}", "\u{140}\u{12a}", "vi"] {
+    for k in ["line\u{85}next", "\u{80}", "a\u{7f}\u{e9}", "\u{9f}b", "\u{feff}a", "a\u{ffff}", "\u{a0}", "\u{2028}x", "\u{e9}", "\u{10d}aj", "vi\u{10d}", "\u{420}\u{43e}\u{441}\u{441}\u{438}\u{44f}", "\u{4e0a}", "\u{4e09}x", "x\u{120}", "\u{12e}", "a\u{15b}", "\u{127}b", "\u{124}", "\u{140}\u{12a}", "vi", "'a/b'", "a/b", "\"k\\1\"", "k\\1", "'q'", "q"] {
         cfg.keys.push(k.into());
     }
     cfg.strings.push("a b".into());
@@ -87,12 +89,20 @@ pub fn run(ctx: &Ctx) -> Result<Evidence, String> {
     asts.extend(gen::composition_queries().iter().filter_map(|t| analyze(t).ast));
     let n_curated = asts.len();
     let mut qcfg = gen::QueryCfg::default();
-    qcfg.names = ["a", "b", "c", "k", "x y", "xy", "_1", "\u{e9}", "line\u{85}next", "\u{80}", "a\u{7f}\u{e9}", "\u{9f}b", "\u{feff}a", "a\u{ffff}", "\u{a0}", "\u{2028}x", "\u{10d}aj", "vi\u{10d}", "\u{420}\u{43e}\u{441}\u{441}\u{438}\u{44f}", "\u{4e0a}", "\u{4e09}x", "x\u{120}", "\u{12e}", "a\u{15b}", "\u{127}b", "\u{124}", "\u{140}\u{12a}"].iter().map(|s| s.to_string()).collect();
+    qcfg.names = ["a", "b", "c", "k", "x y", "xy", "_1", "\u{e9}", "line\u{85}next", "\u{80}", "a\u{7f}\u{e9}", "\u{9f}b", "\u{feff}a", "a\u{ffff}", "\u{a0}", "\u{2028}x", "\u{10d}aj", "vi\u{10d}", "\u{420}\u{43e}\u{441}\u{441}\u{438}\u{44f}", "\u{4e0a}", "\u{4e09}x", "x\u{120}", "\u{12e}", "a\u{15b}", "\u{127}b", "\u{124}", "\u{140}\u{12a}", "'a/b'", "a/b", "\"k\\1\"", "k\\1", "'q'", "q"].iter().map(|s| s.to_string()).collect();
     for _ in 0..ctx.tier.pick(1500, 250000) {
         asts.push(gen::random_query(&mut rng, &qcfg));
     }
     let ndoc = docs.len();
     let numdoc = Doc::new(&number_doc());
+    let fndoc = Doc::new(&J::Arr(vec![
+        J::Obj(vec![("l".into(), J::Arr((0..100).map(J::int).collect())), ("s".into(), J::str(&"x".repeat(100)))]),
+        J::Obj(vec![("l".into(), J::Arr(vec![J::int(1)])), ("s".into(), J::str("y"))]),
+        J::Obj(vec![("l".into(), J::Arr(vec![])), ("s".into(), J::str(""))]),
+        J::Obj(vec![("l".into(), J::Arr(vec![J::int(1), J::int(2)]))]),
+        J::Obj(vec![("s".into(), J::str("ab"))]),
+        J::int(5),
+    ]));
     let classes = number_classes();
     let n_num = classes.len() * 6 * 2;
     let seed = ctx.seed;
@@ -106,6 +116,37 @@ pub fn run(ctx: &Ctx) -> Result<Evidence, String> {
             let op = CmpOp::ALL[(k / 2) % 6];
             let lit_left = k % 2 == 1;
             let mut base: Option<(String, Result<Vec<usize>, String>)> = None;
+            // the same spellings against function results and against another literal: computed
+            // operands on both sides (no document number involved)
+            {
+                let mut fbase: Vec<Option<Result<Vec<usize>, String>>> = vec![None; 4];
+                for t in class {
+                    let texts = [
+                        format!("$[?count(@.l[*]) {} {}]", op.text(), t),
+                        format!("$[?{} {} length(@.l)]", t, op.text()),
+                        format!("$[?length(@.s) {} {} || count(@.*) {} {}]", op.text(), t, op.text(), t),
+                        format!("$[?{} {} {}]", class[0], op.text(), t),
+                    ];
+                    for (k, text) in texts.iter().enumerate() {
+                        acc.evaluations += 1;
+                        let got = observe(text, &fndoc);
+                        acc.count("class_number-spelling-computed-operands", 1);
+                        match &fbase[k] {
+                            None => fbase[k] = Some(got),
+                            Some(b) => {
+                                if *b != got {
+                                    ctx.violate(
+                                        &format!("number spellings of one value compare differently against a computed operand: {} -> {:?}, another spelling of the same number -> {:?}", text, got.as_ref().map(|v| v.len()), b.as_ref().map(|v| v.len())),
+                                        json!({"kind":"spelling","base": texts[k].replace(t, class[0]), "variant": text, "document": serde_json::from_str::<serde_json::Value>(&fndoc.text()).unwrap_or_default()}),
+                                    );
+                                } else {
+                                    acc.count("held", 1);
+                                }
+                            }
+                        }
+                    }
+                }
+            }
             for t in class {
                 let text = if lit_left { format!("$[?{} {} @.v]", t, op.text()) } else { format!("$[?@.v {} {}]", op.text(), t) };
                 acc.evaluations += 1;
@@ -150,6 +191,8 @@ pub fn run(ctx: &Ctx) -> Result<Evidence, String> {
         variants.push(("redundant-parentheses-2", render(ast, &mut mk(&|s| { s.extra_parens = 2; s.filter_parens = true; }))));
         variants.push(("literal-double-quoted", render(ast, &mut mk(&|s| s.lit_double = true))));
         variants.push(("escape-unicode-upper", render(ast, &mut mk(&|s| s.esc = EscStyle::AllUnicodeUpper))));
+        variants.push(("escape-solidus", render(ast, &mut mk(&|s| s.esc = EscStyle::Solidus))));
+        variants.push(("escape-solidus-double-quoted", render(ast, &mut mk(&|s| { s.esc = EscStyle::Solidus; s.names = NameStyle::Double; s.lit_double = true; }))));
         {
             let mut s = Spelling::canonical();
             s.esc = EscStyle::Random;
@@ -186,9 +229,21 @@ pub fn run(ctx: &Ctx) -> Result<Evidence, String> {
                 variants.push(("blank-random-mixture", render(ast, &mut s)));
             }
         }
+        // when the canonical spelling itself needs an escape (a name that contains a single quote),
+        // the open escape finding would explain every difference; such variants are compared with
+        // the double-quoted spelling instead, if that one needs no escape
+        let tb_canon = triggers(&analyze(&base_text));
+        let alt_text: Option<String> = if tb_canon.name_esc_other || tb_canon.lit_esc {
+            let t = render(ast, &mut mk(&|s| { s.names = NameStyle::Double; s.lit_double = true; }));
+            let ta = triggers(&analyze(&t));
+            if ta.name_esc_other || ta.lit_esc { None } else { Some(t) }
+        } else {
+            None
+        };
         for di in doc_ids {
             let doc = &docs[di];
             let base = observe(&base_text, doc);
+            let alt = alt_text.as_ref().map(|t| observe(t, doc));
             for (class, text) in &variants {
                 if *text == base_text {
                     continue;
@@ -198,9 +253,20 @@ pub fn run(ctx: &Ctx) -> Result<Evidence, String> {
                 let got = observe(text, doc);
                 if got != base {
                     // spellings with escapes run into the open escape-decoding findings
+                    // (either side of the pair may be the one spelled with escapes: the canonical
+                    // spelling of a name that contains a quote needs one)
                     let p = analyze(text);
                     let t = triggers(&p);
-                    let known = [(t.name_esc_other, "name_esc_other"), (t.lit_esc, "lit_esc")].iter().find(|(c, n)| *c && armed.has(n)).map(|(_, n)| armed.id_of(n));
+                    let tb = triggers(&analyze(&base_text));
+                    let mut known = [(t.name_esc_other || tb.name_esc_other, "name_esc_other"), (t.lit_esc || tb.lit_esc, "lit_esc")].iter().find(|(c, n)| *c && armed.has(n)).map(|(_, n)| armed.id_of(n));
+                    // the variant is escape-free and so is the alternative reference: judge that pair
+                    if let (Some(a), false, false) = (&alt, t.name_esc_other, t.lit_esc) {
+                        if got == *a {
+                            acc.count("held_against_escape_free_reference", 1);
+                            continue;
+                        }
+                        known = None;
+                    }
                     match known {
                         Some(id) => ctx.add_known(&id, 1),
                         None => ctx.violate(
